@@ -839,6 +839,7 @@ def c04_huge_compare_oracle(ctx, exe, gen, exprs, meta, lines, impl, units_of):
     results = [(lines[i], impl[i], exprs[k], mode) for i, (k, mode) in enumerate(meta) if exprs[k]["stream"] == "H"]
     results += [(qlines[j], qout[j], exprs[k], "q") for j, k in enumerate(idx)]
     n, nbad, obs, obs_wrong, per_cls = 0, 0, 0, [], {}
+    bad_cls = {}
     for line, out, e, mode in results:
         info = huge.get((e["text"], e["vars"]))
         if info is None or out.startswith("FAULT"):
@@ -855,7 +856,8 @@ def c04_huge_compare_oracle(ctx, exe, gen, exprs, meta, lines, impl, units_of):
         per_cls[cls] = per_cls.get(cls, 0) + 1
         if out != want:
             nbad += 1
-            if nbad <= 300:
+            bad_cls[cls] = bad_cls.get(cls, 0) + 1      # the cap is per class: the recorded nat63 finding must not use up the reports of the others
+            if bad_cls[cls] <= 300:
                 ctx.fail("natural-above-int63-compare" if cls == "nat63" else "oracle:huge-compare", "comparison of whole numbers above 2^53 / across number kinds differs from exact arithmetic (%s, class %s): %r (vars %s) -> %s, expected %s" % (
                     {"p": "Evaluate", "m": "{math:}", "i": "<if case>", "q": "inline if"}[mode], cls, e["text"], e["vars"], out, want),
                     {"line": line, "text": e["text"], "vars": e["vars"], "mode": mode, "impl_output": out, "expected": want, "class": cls})
